@@ -173,3 +173,33 @@ int scen_pairs(cmd_t * c) {
 	free(starts); free(mate); free(dep);
 	return 1;
 }
+
+/* ---- aho-corasick.c (AhoCorasick.tla): ac <keys separated by ,> <text> <start> <len> ------------------------------------------------ */
+#include "aho-corasick.h"
+
+static void matches_json(match * m, DString * out) {
+	d_string_append(out, "[");
+	int first = 1;
+	if (m) m = m->next;       /* skip the header */
+	for (; m; m = m->next) { d_string_append_printf(out, "%s[%lu,%lu,%d]", first ? "" : ",", (unsigned long)m->start, (unsigned long)m->len, (int)m->match_type); first = 0; }
+	d_string_append(out, "]");
+}
+
+int scen_ac(cmd_t * c) {
+	if (strcmp(c->name, "ac")) return 0;
+	char * keys = strdup(c->argv[0].s ? c->argv[0].s : "");
+	const char * text = c->argv[1].s ? c->argv[1].s : "";
+	size_t start = arg_size(&c->argv[2]), len = arg_size(&c->argv[3]);
+	trie * a = trie_new(0);
+	int n = 0;
+	for (char * k = strtok(keys, ","); k; k = strtok(NULL, ",")) trie_insert(a, k, (unsigned short)++n);
+	ac_trie_prepare(a);
+	match * all = ac_trie_search(a, text, start, len);
+	match * sel = ac_trie_leftmost_longest_search(a, text, start, len);
+	DString * ja = d_string_new(""), * js = d_string_new("");
+	matches_json(all, ja); matches_json(sel, js);
+	ev_begin("ac"); ev_int("nkeys", n); ev_int("nodes", (long)a->size); ev_raw("all", ja->str); ev_raw("sel", js->str); ev_end();
+	d_string_free(ja, true); d_string_free(js, true);
+	match_free(all); match_free(sel); trie_free(a); free(keys);
+	return 1;
+}
